@@ -127,3 +127,933 @@ def gen_TargetEmit(repo: Any) -> str:
         out.append(f"end {target}")
     out.append("end AasVerif.Gen.TargetEmit")
     return "\n".join(out) + "\n"
+
+
+# --------------------------------------------------------------------------- tokenizer + precedence-climbing parser
+# One parser for the expression sub-grammar the three transpilers emit (TypeScript, Java, C++).  Generic trees:
+#   ('id', name) ('lit', raw) ('paren', e) ('un', op, e) ('bin', op, l, r) ('nary', op, [e…]) ('member', e, name, sep)
+#   ('call', f, [args]) ('lambda', var, body) ('tpl', [('l', raw) | ('v', tree)])
+
+class ParseError(Exception):
+    pass
+
+
+_OPS = ["===", "!==", "==", "!=", "<=", ">=", "&&", "||", "->", "=>"]
+_ID = re.compile(r"[A-Za-z_$][\w$]*(?:::[A-Za-z_$][\w$]*)*")
+_NUM = re.compile(r"\d+(?:\.\d*)?(?:[eE][+-]?\d+)?[A-Za-z]*")
+
+
+def tokenize(text: str) -> List[Tuple[str, Any]]:
+    text = text.replace("std::numeric_limits<double>", "std::numeric_limits_double")
+    out: List[Tuple[str, Any]] = []
+    i, n = 0, len(text)
+    while i < n:
+        c = text[i]
+        if c in " \t\r\n":
+            i += 1
+            continue
+        if c == '"' or (c == "L" and i + 1 < n and text[i + 1] == '"'):
+            j = i + (2 if c == "L" else 1)
+            while j < n and text[j] != '"':
+                j += 2 if text[j] == "\\" else 1
+            if j >= n:
+                raise ParseError("unterminated string literal")
+            out.append(("str", text[i:j + 1]))
+            i = j + 1
+            continue
+        if c == "`":
+            parts: List[Tuple[str, Any]] = []
+            j = i + 1
+            chunk = ""
+            while True:
+                if j >= n:
+                    raise ParseError("unterminated template literal")
+                if text[j] == "`":
+                    break
+                if text[j] == "\\":
+                    chunk += text[j:j + 2]
+                    j += 2
+                elif text[j] == "$" and j + 1 < n and text[j + 1] == "{":
+                    depth, k = 1, j + 2
+                    while k < n and depth > 0:
+                        if text[k] == "{":
+                            depth += 1
+                        elif text[k] == "}":
+                            depth -= 1
+                        elif text[k] in "\"`":
+                            raise ParseError("string inside a template substitution (not emitted by the transpiler)")
+                        k += 1
+                    if depth != 0:
+                        raise ParseError("unterminated template substitution")
+                    if chunk:
+                        parts.append(("l", chunk))
+                        chunk = ""
+                    parts.append(("v", tokenize(text[j + 2:k - 1])))
+                    j = k
+                else:
+                    chunk += text[j]
+                    j += 1
+            if chunk:
+                parts.append(("l", chunk))
+            out.append(("tpl", parts))
+            i = j + 1
+            continue
+        m = _NUM.match(text, i)
+        if m and c.isdigit():
+            out.append(("num", m.group(0)))
+            i = m.end()
+            continue
+        m = _ID.match(text, i)
+        if m:
+            out.append(("id", m.group(0)))
+            i = m.end()
+            continue
+        for op in _OPS:
+            if text.startswith(op, i):
+                out.append(("op", op))
+                i += len(op)
+                break
+        else:
+            if c in "()[]{}.,;<>!+-*&":
+                out.append(("op", c))
+                i += 1
+            else:
+                raise ParseError(f"unexpected character {c!r}")
+    return out
+
+
+class Parser:
+    """or < and < equality < relational < additive < unary < postfix; Java lambdas `x -> e`, TypeScript arrows `x => e`,
+    C++ lambdas `[&](T x) -> bool { return e; }` as primaries."""
+
+    def __init__(self, toks: List[Tuple[str, Any]], lang: str) -> None:
+        self.t, self.p, self.lang = toks, 0, lang
+
+    def peek(self, k: int = 0) -> Tuple[str, Any]:
+        return self.t[self.p + k] if self.p + k < len(self.t) else ("end", None)
+
+    def eat(self, kind: str, val: Any = None) -> Any:
+        tk = self.peek()
+        if tk[0] != kind or (val is not None and tk[1] != val):
+            raise ParseError(f"expected {kind} {val!r}, got {tk!r} at {self.p}")
+        self.p += 1
+        return tk[1]
+
+    def is_op(self, *vals: str) -> bool:
+        tk = self.peek()
+        return tk[0] == "op" and tk[1] in vals
+
+    def expr(self) -> Any:
+        return self.nary("||", lambda: self.nary("&&", self.equality))
+
+    def nary(self, op: str, sub: Any) -> Any:
+        first = sub()
+        if not self.is_op(op):
+            return first
+        vals = [first]
+        while self.is_op(op):
+            self.p += 1
+            vals.append(sub())
+        return ("nary", op, vals)
+
+    def left(self, ops: Sequence[str], sub: Any) -> Any:
+        l = sub()
+        while self.is_op(*ops):
+            op = self.eat("op")
+            l = ("bin", op, l, sub())
+        return l
+
+    def equality(self) -> Any:
+        return self.left(("==", "!=", "===", "!=="), self.relational)
+
+    def relational(self) -> Any:
+        return self.left(("<", "<=", ">", ">="), self.additive)
+
+    def additive(self) -> Any:
+        return self.left(("+", "-"), self.unary)
+
+    def unary(self) -> Any:
+        if self.is_op("!", "-", "*"):
+            op = self.eat("op")
+            return ("un", op, self.unary())
+        return self.postfix()
+
+    def args(self) -> List[Any]:
+        self.eat("op", "(")
+        out: List[Any] = []
+        if not self.is_op(")"):
+            out.append(self.expr())
+            while self.is_op(","):
+                self.p += 1
+                out.append(self.expr())
+        self.eat("op", ")")
+        return out
+
+    def postfix(self) -> Any:
+        e = self.primary()
+        while True:
+            if self.is_op(".") or (self.is_op("->") and self.lang == "cpp"):
+                sep = self.eat("op")
+                e = ("member", e, self.eat("id"), sep)
+            elif self.is_op("("):
+                e = ("call", e, self.args())
+            else:
+                return e
+
+    def primary(self) -> Any:
+        kind, val = self.peek()
+        if kind in ("num", "str"):
+            self.p += 1
+            return ("lit", val)
+        if kind == "tpl":
+            self.p += 1
+            parts: List[Any] = []
+            for k, v in val:
+                if k == "l":
+                    parts.append(("l", v))
+                else:
+                    sub = Parser(v, self.lang)
+                    tree = sub.expr()
+                    if sub.peek()[0] != "end":
+                        raise ParseError("trailing tokens in a template substitution")
+                    parts.append(("v", tree))
+            return ("tpl", parts)
+        if kind == "id":
+            nxt = self.peek(1)
+            if (self.lang == "ts" and nxt == ("op", "=>")) or (self.lang == "java" and nxt == ("op", "->")):
+                self.p += 2
+                return ("lambda", val, self.expr())
+            self.p += 1
+            return ("id", val)
+        if kind == "op" and val == "(":
+            self.p += 1
+            e = self.expr()
+            self.eat("op", ")")
+            return ("paren", e)
+        if kind == "op" and val == "[" and self.lang == "cpp":
+            self.eat("op", "[")
+            self.eat("op", "&")
+            self.eat("op", "]")
+            self.eat("op", "(")
+            var = None
+            while not self.is_op(")"):
+                tk = self.peek()
+                if tk[0] == "end":
+                    raise ParseError("unterminated lambda parameter list")
+                var = tk[1] if tk[0] == "id" else var
+                self.p += 1
+            self.eat("op", ")")
+            self.eat("op", "->")
+            self.eat("id", "bool")
+            self.eat("op", "{")
+            self.eat("id", "return")
+            body = self.expr()
+            self.eat("op", ";")
+            self.eat("op", "}")
+            return ("lambda", var, body)
+        raise ParseError(f"unexpected token {self.peek()!r} at {self.p}")
+
+
+def parse_target(text: str, lang: str) -> Any:
+    p = Parser(tokenize(text), lang)
+    tree = p.expr()
+    if p.peek()[0] != "end":
+        raise ParseError(f"trailing tokens from {p.p}: {p.t[p.p:p.p + 4]}")
+    return tree
+
+
+def strip_parens(t: Any) -> Any:
+    if isinstance(t, tuple):
+        if t and t[0] == "paren":
+            return strip_parens(t[1])
+        return tuple(strip_parens(x) for x in t)
+    if isinstance(t, list):
+        return [strip_parens(x) for x in t]
+    return t
+
+
+def show_tree(t: Any) -> str:
+    """A fully parenthesised rendering (for messages)."""
+    k = t[0]
+    if k in ("id", "lit"):
+        return t[1]
+    if k == "paren":
+        return "(" + show_tree(t[1]) + ")"
+    if k == "un":
+        return t[1] + "⟨" + show_tree(t[2]) + "⟩"
+    if k == "bin":
+        return "⟨" + show_tree(t[2]) + " " + t[1] + " " + show_tree(t[3]) + "⟩"
+    if k == "nary":
+        return "⟨" + (" " + t[1] + " ").join(show_tree(x) for x in t[2]) + "⟩"
+    if k == "member":
+        return show_tree(t[1]) + t[3] + t[2]
+    if k == "call":
+        return show_tree(t[1]) + "(" + ", ".join(show_tree(x) for x in t[2]) + ")"
+    if k == "lambda":
+        return "λ" + str(t[1]) + "." + show_tree(t[2])
+    if k == "tpl":
+        return "`" + "".join(p[1] if p[0] == "l" else "${" + show_tree(p[1]) + "}" for p in t[1]) + "`"
+    return repr(t)
+
+
+# --------------------------------------------------------------------------- the three real transpilers + model input/output
+
+LANGS = ("ts", "java", "cpp")
+_PRIM_WIRE = {"BOOL": "bool", "INT": "int", "FLOAT": "float", "STR": "str", "BYTEARRAY": "bytearray", "LENGTH": "length", "NONE": "none"}
+
+
+def _walk_tree(node: Any) -> Iterator[Any]:
+    from harness.props.c08 import _tree_children
+
+    yield node
+    for c in _tree_children(node):
+        yield from _walk_tree(c)
+
+
+class Ambiguous(Exception):
+    """Two different nodes with the same text need different annotations (the model keys by sub-expression)."""
+
+
+class Target:
+    """One target's real invariant transpiler on one symbol table, the encoding of what it reads for the model, and the
+    rendering of the model's answer as a generic tree with the target's naming / literal functions."""
+
+    def __init__(self, lang: str, st: Any) -> None:
+        from aas_core_codegen import intermediate
+        from aas_core_codegen.intermediate import type_inference as ti
+
+        self.lang, self.st, self.I, self.ti = lang, st, intermediate, ti
+        self.base_env = ti.populate_base_environment(symbol_table=st)
+        if lang == "ts":
+            from aas_core_codegen.typescript import common as cm, naming as nm
+            from aas_core_codegen.typescript.lib import _generate_verification as gv
+        elif lang == "java":
+            from aas_core_codegen.java import common as cm, naming as nm
+            from aas_core_codegen.java.lib import _generate_verification as gv
+        else:
+            from aas_core_codegen.cpp import common as cm, naming as nm
+            from aas_core_codegen.cpp.lib import _generate_verification as gv
+        self.cm, self.nm, self.gv = cm, nm, gv
+
+    # ---- the real transpiler
+    def env_for(self, owner: Any) -> Any:
+        from aas_core_codegen.common import Identifier
+
+        env = self.ti.MutableEnvironment(parent=self.base_env)
+        env.set(identifier=Identifier("self"), type_annotation=self.ti.OurTypeAnnotation(our_type=owner))
+        return env
+
+    def real(self, owner: Any, inv: Any) -> Tuple[Optional[str], Any, Any, Any]:
+        """(code | None, type_map, is_optional_map, error) — obtained the way ``_transpile_invariant`` obtains them."""
+        env = self.env_for(owner)
+        type_map, err = self.ti.infer_for_invariant(invariant=inv, environment=env)
+        if err is not None:
+            return None, None, None, err
+        opt: Dict[Any, bool] = {}
+        if self.lang == "ts":
+            tr = self.gv._InvariantTranspiler(type_map=type_map, environment=env, symbol_table=self.st)
+        elif self.lang == "java":
+            from aas_core_codegen.java import optional as jopt
+
+            oi = jopt.OptionalInferrer(environment=env, type_map=type_map)
+            oi.transform(inv.body)
+            if oi.errors:
+                return None, type_map, None, oi.errors[0]
+            opt = oi.is_optional_map
+            tr = self.gv._InvariantTranspiler(type_map=type_map, is_optional_map=opt, environment=env, symbol_table=self.st)
+        else:
+            from aas_core_codegen.cpp import optionaling as copt
+
+            oi = copt.Inferrer(environment=env, type_map=type_map)
+            oi.transform(inv.body)
+            if oi.errors:
+                return None, type_map, None, oi.errors[0]
+            opt = oi.is_optional_map
+            if isinstance(owner, self.I.ConstrainedPrimitive):
+                tr = self.gv._ConstrainedPrimitiveInvariantTranspiler(
+                    type_map=type_map, is_optional_map=opt, environment=env, symbol_table=self.st, constrained_primitive=owner)
+            else:
+                tr = self.gv._ClassInvariantTranspiler(type_map=type_map, is_optional_map=opt, environment=env, symbol_table=self.st)
+        code, err = tr.transform(inv.body)
+        return (None if err is not None else str(code)), type_map, opt, err
+
+    # ---- what the transpiler reads, for the model
+    def _tag(self, t: Any) -> List[str]:
+        ti, I = self.ti, self.I
+        t = ti.beneath_optional(t)
+        if isinstance(t, ti.PrimitiveTypeAnnotation):
+            return ["p", _PRIM_WIRE[t.a_type.name]]
+        if isinstance(t, ti.OurTypeAnnotation):
+            if isinstance(t.our_type, I.Enumeration):
+                return ["eo", enc_text(str(t.our_type.name))]
+            if isinstance(t.our_type, I.ConstrainedPrimitive):
+                return ["q", _PRIM_WIRE[t.our_type.constrainee.name]]
+            return ["k"]
+        if isinstance(t, ti.ListTypeAnnotation):
+            return ["l"]
+        if isinstance(t, ti.SetTypeAnnotation):
+            return ["s"]
+        if isinstance(t, ti.EnumerationAsTypeTypeAnnotation):
+            return ["et", enc_text(str(t.enumeration.name))]
+        return ["o"]
+
+    def cfg(self, body: Any, type_map: Any, opt: Dict[Any, bool]) -> str:
+        from harness.props.c08 import Emit
+
+        base = Emit.__new__(Emit)
+        base.st, base.I, base.ti = self.st, self.I, self.ti
+        head = Emit.cfg(base, body, type_map)
+        from aas_core_codegen.parse import tree as T
+
+        # ``rawOpt`` (is the *inferred* type optional) depends on the narrowing context of an occurrence; the transpilers read
+        # it only for the container of ``in`` (TypeScript) and for call arguments / formatted values (C++)
+        sensitive: Dict[str, set] = {}
+        for node in _walk_tree(body):
+            kids: List[Any] = []
+            if self.lang == "ts" and isinstance(node, T.IsIn):
+                kids = [node.container]
+            elif self.lang == "cpp" and isinstance(node, (T.FunctionCall, T.MethodCall)):
+                kids = list(node.args)
+            elif self.lang == "cpp" and isinstance(node, T.JoinedStr):
+                kids = [v.value for v in node.values if not isinstance(v, str)]
+            for kid in kids:
+                if kid in type_map:
+                    k = expr_wire.enc(mm.expr_from_project_tree(kid))
+                    sensitive.setdefault(k, set()).add(isinstance(type_map[kid], self.ti.OptionalTypeAnnotation))
+        anns: Dict[str, List[str]] = {}
+        for node in _walk_tree(body):
+            if node not in type_map:
+                continue
+            t = type_map[node]
+            key = expr_wire.enc(mm.expr_from_project_tree(node))
+            raw = isinstance(t, self.ti.OptionalTypeAnnotation)
+            if key in sensitive:
+                if len(sensitive[key]) > 1:
+                    raise Ambiguous(key)
+                raw = next(iter(sensitive[key]))
+            val = self._tag(t) + ["1" if raw else "0", "1" if opt.get(node, False) else "0"]
+            if key in anns and anns[key] != val:
+                if key in sensitive or anns[key][:-2] != val[:-2] or anns[key][-1] != val[-1]:
+                    raise Ambiguous(key)
+                continue
+            anns[key] = val
+        out = [head, str(len(anns))]
+        for k, v in anns.items():
+            out.append(k)
+            out.extend(v)
+        return ",".join(out)
+
+    # ---- the model's answer as a generic tree
+    def lit_tree(self, toks: List[str]) -> Any:
+        kind, val = toks
+        cm = self.cm
+        if kind == "kb":
+            text = ("true" if val == "1" else "false")
+        elif kind == "ki":
+            v = int(val)
+            text = str(cm.numeric_literal(v)) if self.lang == "ts" else (str(v) if self.lang == "java" else str(cm.float_literal(v)))
+        elif kind == "kf":
+            v = float(dec_text(val))
+            text = str(cm.numeric_literal(v)) if self.lang == "ts" else (str(v) if self.lang == "java" else str(cm.float_literal(v)))
+        else:
+            s = dec_text(val)
+            text = str(cm.wstring_literal(s)) if self.lang == "cpp" else str(cm.string_literal(s))
+        return parse_target(text, self.lang)
+
+    def tree(self, toks: List[str], owner: Any) -> Any:
+        from aas_core_codegen.common import Identifier as Id
+
+        nm, lang = self.nm, self.lang
+        pos = 0
+
+        def nxt() -> str:
+            nonlocal pos
+            pos += 1
+            return toks[pos - 1]
+
+        def name() -> Any:
+            return Id(dec_text(nxt()))
+
+        def many() -> List[Any]:
+            return [go() for _ in range(int(nxt()))]
+
+        def member(e: Any, n: str) -> Any:
+            return ("member", e, str(n), "->" if lang == "cpp" else ".")
+
+        def call0(e: Any, n: str) -> Any:
+            return ("call", ("member", e, n, "."), [])
+
+        def go() -> Any:
+            k = nxt()
+            if k == "T":
+                if lang != "cpp":
+                    return ("id", "that")
+                return ("id", "value_" if isinstance(owner, self.I.ConstrainedPrimitive) else "instance_")
+            if k == "V":
+                return ("id", str(nm.variable_name(name())))
+            if k == "C":
+                n = name()
+                if lang == "ts":
+                    return ("member", ("id", "AasConstants"), str(nm.constant_name(n)), ".")
+                if lang == "java":
+                    return ("member", ("id", "Constants"), str(nm.property_name(n)), ".")
+                return ("id", f"{self.cm.CONSTANTS_NAMESPACE}::{nm.constant_name(n)}")
+            if k == "E":
+                n = name()
+                if lang == "ts":
+                    return ("member", ("id", "AasTypes"), str(nm.enum_name(n)), ".")
+                if lang == "java":
+                    return ("id", str(nm.enum_name(n)))
+                return ("id", f"{self.cm.TYPES_NAMESPACE}::{nm.enum_name(n)}")
+            if k == "F":
+                n = name()
+                return ("id", str(nm.method_name(n) if lang == "java" else nm.function_name(n)))
+            if k == "K":
+                return self.lit_tree([nxt(), nxt()])
+            if k == "A":
+                e = go()
+                kind = nxt()
+                n = name()
+                if kind == "L":
+                    return ("member", e, str(nm.enum_literal_name(n)), ".")
+                if kind == "M":
+                    return member(e, str(nm.method_name(n)))
+                if lang == "ts":
+                    return ("member", e, str(nm.property_name(n)), ".")
+                return ("call", member(e, str(nm.getter_name(n))), [])
+            if k == "L":
+                en, lit = name(), name()
+                return ("id", f"{self.cm.TYPES_NAMESPACE}::{nm.enum_name(en)}::{nm.enum_literal_name(lit)}")
+            if k == "U":
+                kind = nxt()
+                e = go()
+                if kind == "get":
+                    return call0(e, "get")
+                if kind == "orElseNull":
+                    return ("call", ("member", e, "orElse", "."), [("id", "null")])
+                if kind == "deref":
+                    return ("un", "*", e)
+                return ("paren", ("un", "*", ("paren", e)))
+            if k == "X":
+                kind = nxt()
+                c = go()
+                i = go()
+                if kind == "tsAt":
+                    return ("call", ("member", ("id", "AasCommon"), "at", "."), [c, i])
+                if kind == "javaGet":
+                    return ("call", ("member", c, "get", "."), [i])
+                if kind == "cppAt":
+                    return ("call", ("member", c, "at", "."), [i])
+                return call0(c, "back")
+            if k == "Z":
+                c = go()
+                return ("bin", "-", call0(c, "size"), ("lit", nxt()))
+            if k == "N":
+                kind = nxt()
+                e = go()
+                if kind == "tsLength":
+                    return ("member", e, "length", ".")
+                if kind == "tsSize":
+                    return ("member", e, "size", ".")
+                return call0(e, "length" if kind == "javaLength" else "size")
+            if k == "I":
+                kind = nxt()
+                c = go()
+                m = go()
+                if kind == "cppContains":
+                    return ("call", ("id", "common::" + str(nm.function_name(Id("contains")))), [c, m])
+                meth = {"tsIncludes": "includes", "tsHas": "has", "javaContains": "contains"}[kind]
+                return ("call", ("member", c, meth, "."), [m])
+            if k == "Q":
+                kind = nxt()
+                is_none = nxt() == "1"
+                e = go()
+                if kind == "tsStrict":
+                    return ("bin", "===" if is_none else "!==", e, ("id", "null"))
+                if kind == "javaNull":
+                    return ("bin", "==" if is_none else "!=", e, ("id", "null"))
+                return call0(e, "isPresent" if kind == "javaPresent" else "has_value")
+            if k == "S":
+                return call0(go(), "stream")
+            if k == "M":
+                e = go()
+                m = name()
+                return ("call", member(e, str(nm.method_name(m))), many())
+            if k == "G":
+                f = name()
+                return ("call", ("id", str(nm.method_name(f) if lang == "java" else nm.function_name(f))), many())
+            if k == "c":
+                op = {"lt": "<", "le": "<=", "gt": ">", "ge": ">=", "eq": "==", "ne": "!="}[nxt()]
+                l = go()
+                return ("bin", op, l, go())
+            if k == "!":
+                return ("un", "!", go())
+            if k == "B":
+                op = "&&" if nxt() == "1" else "||"
+                return ("nary", op, many())
+            if k == "b":
+                op = "+" if nxt() == "1" else "-"
+                l = go()
+                return ("bin", op, l, go())
+            if k == "J":
+                nxt()
+                parts: List[Any] = []
+                for _ in range(int(nxt())):
+                    if nxt() == "l":
+                        parts.append(("l", dec_text(nxt())))
+                    else:
+                        parts.append(("v", nxt(), go()))
+                return self.interp_tree(parts)
+            if k == "q":
+                nxt()
+                is_any = nxt() == "1"
+                cond = go()
+                var = str(nm.variable_name(name()))
+                lam = ("lambda", var, cond)
+                if nxt() == "e":
+                    src = go()
+                    if lang == "ts":
+                        inner = ("call", ("member", ("id", "AasCommon"), "map", "."), [src, lam])
+                        return ("call", ("member", ("id", "AasCommon"), "some" if is_any else "every", "."), [inner])
+                    if lang == "java":
+                        return ("call", ("member", src, "anyMatch" if is_any else "allMatch", "."), [lam])
+                    fn = nm.function_name(Id("Some" if is_any else "All"))
+                    return ("call", ("id", f"common::{fn}"), [lam, src])
+                a = go()
+                b = go()
+                if lang == "ts":
+                    rng = ("call", ("member", ("id", "AasCommon"), "range", "."), [a, b])
+                    inner = ("call", ("member", ("id", "AasCommon"), "map", "."), [rng, lam])
+                    return ("call", ("member", ("id", "AasCommon"), "some" if is_any else "every", "."), [inner])
+                if lang == "java":
+                    rng = ("call", ("member", ("id", "IntStream"), "range", "."), [a, b])
+                    return ("call", ("member", rng, "anyMatch" if is_any else "allMatch", "."), [lam])
+                return ("call", ("id", "common::" + ("SomeRange" if is_any else "AllRange")), [lam, a, b])
+            if k == "P":
+                return ("paren", go())
+            raise ValueError(k)
+
+        t = go()
+        assert pos == len(toks), (pos, len(toks))
+        return t
+
+    def interp_tree(self, parts: List[Any]) -> Any:
+        from aas_core_codegen.common import Identifier as Id
+
+        lang, cm = self.lang, self.cm
+        if lang == "ts":
+            out: List[Any] = []
+            for p in parts:
+                if p[0] == "l":
+                    raw = str(cm.string_literal(p[1], without_enclosing=True, in_backticks=True))
+                    if raw:
+                        if out and out[-1][0] == "l":
+                            out[-1] = ("l", out[-1][1] + raw)
+                        else:
+                            out.append(("l", raw))
+                else:
+                    out.append(("v", p[2]))
+            return ("tpl", out)
+        if lang == "java":
+            items = [parse_target(str(cm.string_literal(p[1])), lang) if p[0] == "l" else p[2] for p in parts]
+            if not items:
+                raise ParseError("empty concatenation")
+            t = items[0]
+            for x in items[1:]:
+                t = ("bin", "+", t, x)
+            return t
+        args = []
+        for p in parts:
+            if p[0] == "l":
+                args.append(parse_target(str(cm.wstring_literal(p[1])), lang))
+            else:
+                conv = p[1]
+                if conv == "asIs":
+                    args.append(p[2])
+                else:
+                    fn = {"stdToWstring": "std::to_wstring", "wstringify": "wstringification::to_wstring",
+                          "base64": "wstringification::" + str(self.nm.function_name(Id("base64_encode")))}[conv]
+                    args.append(("call", ("id", fn), [p[2]]))
+        return ("call", ("id", "common::" + str(self.nm.function_name(Id("concat")))), args)
+
+
+def _norm_tpl(t: Any) -> Any:
+    """merge adjacent literal chunks of templates (both sides)"""
+    if isinstance(t, tuple):
+        if t and t[0] == "tpl":
+            out: List[Any] = []
+            for p in t[1]:
+                if p[0] == "l" and out and out[-1][0] == "l":
+                    out[-1] = ("l", out[-1][1] + p[1])
+                else:
+                    out.append(p if p[0] == "l" else ("v", _norm_tpl(p[1])))
+            return ("tpl", out)
+        return tuple(_norm_tpl(x) for x in t)
+    if isinstance(t, list):
+        return [_norm_tpl(x) for x in t]
+    return t
+
+
+def real_tree(code: str, lang: str, owner: Any, I: Any) -> Any:
+    if lang == "cpp" and isinstance(owner, I.ConstrainedPrimitive):
+        code = code.replace("(*value_)", "value_")
+    return _norm_tpl(parse_target(code, lang))
+
+
+def emit_checks(ctx: Ctx, st: Any, src: str, stream: str = "emit") -> None:
+    """Every invariant of the symbol table through the three real transpilers and the three models."""
+    from aas_core_codegen import intermediate as I
+
+    owners = [t for t in st.our_types if isinstance(t, (I.ConstrainedPrimitive, I.AbstractClass, I.ConcreteClass))]
+    for lang in LANGS:
+        tg = Target(lang, st)
+        cases: List[Tuple[Any, Any, Any, str, str]] = []
+        for owner in owners:
+            for inv in owner.invariants:
+                if inv.specified_for is not owner:
+                    continue
+                e_wire = expr_wire.enc(mm.expr_from_project_tree(inv.body))
+                try:
+                    code, type_map, opt, err = tg.real(owner, inv)
+                except BaseException as ex:  # noqa: B902
+                    if isinstance(ex, KeyboardInterrupt):
+                        raise
+                    code, type_map, opt, err = None, None, None, crash_name(ex)
+                if type_map is None:
+                    ctx.hit(f"{stream}:{lang}:no-type-map")
+                    continue
+                try:
+                    cfg = tg.cfg(inv.body, type_map, opt or {})
+                except Ambiguous:
+                    ctx.hit(f"{stream}:{lang}:ambiguous-key")
+                    continue
+                real = ("ok", code) if code is not None else (("crash", err) if isinstance(err, str) else ("err", str(err)[:200]))
+                cases.append((owner, inv, real, cfg, e_wire))
+        if not cases:
+            continue
+        answers = ctx.model([f"emit {lang} {cfg} 0 {e}" for _, _, _, cfg, e in cases]) if ctx.driver_ok else [None] * len(cases)
+        for (owner, inv, real, cfg, e), ans in zip(cases, answers):
+            ctx.count((lang, e, cfg), nontrivial=e.count(",") > 3, stream=f"{stream}:{lang}")
+            inp = {"model": src, "target": lang, "owner": str(owner.name), "invariant": inv.description,
+                   "expr": mm.render_expr(mm.expr_from_project_tree(inv.body))}
+            ctx.hit(f"{stream}:{lang}:real-{real[0]}")
+            rtree = None
+            if real[0] == "ok":
+                try:
+                    rtree = real_tree(real[1], lang, owner, I)
+                except ParseError as pe:
+                    ctx.fail(inp, f"the emitted {lang} expression is outside the expression grammar of the target: {pe}: {real[1]!r}",
+                             f"C09:emitted-syntax:{lang}")
+                    continue
+            if ans is None:
+                continue
+            ctx.traces_validated += 1
+            if not ans.startswith("ok "):
+                if ans != real[0]:
+                    ctx.disagree(f"{stream}:{lang}", inp, real[1] if real[0] == "ok" else real[0], ans)
+                continue
+            if real[0] != "ok":
+                ctx.disagree(f"{stream}:{lang}", inp, real[0] + ": " + str(real[1]), ans[:200])
+                continue
+            _, wire, _stripped = ans.split(" ")
+            try:
+                mtree = _norm_tpl(tg.tree(wire.split(","), owner))
+            except ParseError as pe:
+                ctx.disagree(f"{stream}:{lang}", inp, real[1], f"model output cannot be rendered: {pe}")
+                continue
+            for k in wire.split(","):
+                if k in ("U", "X", "Z", "N", "I", "Q", "S", "M", "G", "c", "!", "B", "b", "J", "q", "P", "A", "L", "K"):
+                    ctx.hit(f"{stream}:{lang}:node:{k}")
+            if ctx.evaluations % 37 == 0:
+                ctx.sample({"target": lang, "expr": inp["expr"], "emitted": real[1]})
+            if mtree == rtree:
+                continue
+            if strip_parens(mtree) == strip_parens(rtree):
+                ctx.disagree(f"{stream}:{lang}-parens", inp, real[1], show_tree(mtree))
+            else:
+                ctx.disagree(f"{stream}:{lang}", inp, real[1], show_tree(mtree))
+
+
+# --------------------------------------------------------------------------- inputs
+
+#: seed-independent: one model whose invariants reach every node class and every emitted construct of the three transpilers
+ENUMERATED_MODEL = '''\
+from enum import Enum
+from re import match
+from typing import List, Optional, Set
+
+from icontract import invariant, DBC
+
+from aas_core_meta.marker import (
+    abstract,
+    serialization,
+    implementation_specific,
+    verification,
+    constant_set,
+    non_mutating,
+)
+
+
+__version__ = "1"
+
+__xml_namespace__ = "https://example.com/aasv/c09"
+
+
+@verification
+def matches_word(text: str) -> bool:
+    pattern = f"^[a-z]+$"
+    return match(pattern, text) is not None
+
+
+@verification
+def is_short(text: str) -> bool:
+    return len(text) < 4
+
+
+class Color(Enum):
+    Red = "RED"
+    Green = "GREEN"
+
+
+@invariant(lambda self: len(self) >= 1, "Word must not be empty.")
+@invariant(lambda self: matches_word(self), "Word must be lower-case.")
+class Word(str, DBC):
+    """Represent a word."""
+
+
+@invariant(lambda self: self >= 0, "Count must not be negative.")
+class Count(int, DBC):
+    """Represent a count."""
+
+
+Short_words: Set[str] = constant_set(values=["a", "an", "the"], description="Short words.")
+
+Limit: int = constant_int(value=5, description="A limit.")
+
+
+@invariant(lambda self: self.weight > 0, "Weight must be positive.")
+class Item(DBC):
+    """Represent an item."""
+
+    name: "Word"
+    weight: int
+    tag: Optional[str]
+
+    def __init__(self, name: "Word", weight: int, tag: Optional[str] = None) -> None:
+        self.name = name
+        self.weight = weight
+        self.tag = tag
+
+
+@invariant(lambda self: f"a{self.title}b" != "axb", "Title must not be x.")
+@invariant(lambda self: not (self.count is not None) or self.count + 1 > self.items[0].weight - 2, "Count arithmetic.")
+@invariant(lambda self: not (len(self.items) >= 2) or self.items[-2].weight <= self.items[-1].weight, "Sorted at the end.")
+@invariant(lambda self: self.color == Color.Red or self.color != Color.Green or self.title in Short_words, "Colors.")
+@invariant(lambda self: self.title in Short_words, "Title must be a short word.")
+@invariant(lambda self: self.nick is None or (is_short(self.nick) and matches_word(self.nick)), "Nick.")
+@invariant(lambda self: not (self.nick is not None) or len(self.nick) <= Limit, "Nick length.")
+@invariant(lambda self: any(item.weight > 3 for item in self.items), "Some heavy item.")
+@invariant(lambda self: all(item.tag is None or len(item.tag) >= 1 for item in self.items), "Tags are not empty.")
+@invariant(lambda self: all(self.items[i].weight >= i for i in range(0, len(self.items))), "Weights grow.")
+@invariant(lambda self: not (self.count is not None) or (self.count >= 1 and self.count <= 10), "Count range.")
+@invariant(lambda self: not self.flag or len(self.items) >= 1, "Flag needs items.")
+@invariant(lambda self: len(self.title) >= 1 and len(self.title) <= 10, "Title length.")
+@serialization(with_model_type=True)
+class Shelf(DBC):
+    """Represent a shelf."""
+
+    title: str
+    items: List["Item"]
+    color: "Color"
+    flag: bool
+    nick: Optional[str]
+    count: Optional[int]
+    blob: Optional[bytearray]
+
+    def __init__(self, title: str, items: List["Item"], color: "Color", flag: bool, nick: Optional[str] = None, count: Optional[int] = None, blob: Optional[bytearray] = None) -> None:
+        self.title = title
+        self.items = items
+        self.color = color
+        self.flag = flag
+        self.nick = nick
+        self.count = count
+        self.blob = blob
+'''
+
+
+def fixture_sources() -> List[Tuple[str, str]]:
+    import hashlib
+
+    from harness.core import REPO
+
+    out, seen = [], set()
+    for p in sorted((REPO / "dev" / "test_data").glob("**/meta_model.py")):
+        try:
+            text = p.read_text(encoding="utf-8")
+        except (OSError, UnicodeDecodeError):
+            continue
+        if "@invariant" not in text or "aas_core_meta.v3" in str(p):
+            continue
+        h = hashlib.blake2b(text.encode("utf-8"), digest_size=8).hexdigest()
+        if h not in seen:
+            seen.add(h)
+            out.append((str(p.relative_to(REPO / "dev" / "test_data")), text))
+    return out
+
+
+def model_features(k: int) -> Any:
+    ft = mm.Features()
+    if k % 4 == 1:
+        ft.joined_str_in_invariants = True
+    if k % 4 == 2:
+        ft.lists_of_non_classes = True
+        ft.len_of_constrained = True
+    if k % 4 == 3:
+        ft.guards_on_other_property = True
+        ft.len_of_bytes = True
+    return ft
+
+
+def sources(ctx: Ctx) -> Iterator[Tuple[str, str, Any]]:
+    """(stream, source text, label)"""
+    import random as _random
+
+    for c in corpus(ID):
+        if "model" in c:
+            yield "corpus", c["model"], c.get("name", "corpus")
+    yield "enumerated", ENUMERATED_MODEL, "enumerated"
+    fx = fixture_sources()
+    if ctx.tier == "quick" and not ctx.searching:
+        fx = fx[:: 3]
+    for name, text in fx:
+        yield "fixture", text, name
+    for k in range(ctx.n(30, 400)):
+        sub = ctx.rng.randrange(2**32)
+        m = mm.random_mm(_random.Random(sub), size=2 + k % 4, features=model_features(k))
+        yield "random", mm.render(m), {"k": k, "seed": ctx.seed, "subseed": sub}
+
+
+def stream_emit(ctx: Ctx) -> None:
+    for stream, src, label in sources(ctx):
+        st, err = mm.load(src)
+        if st is None:
+            ctx.hit(f"model:{stream}:rejected")
+            continue
+        ctx.hit(f"model:{stream}:accepted")
+        emit_checks(ctx, st, src, "emit")
+
+
+def correspond(ctx: Ctx) -> None:
+    ctx.extra_cov["rule"] = (
+        "inputs = corpus + one hand-written model reaching every node class + fixture meta-models with invariants + seeded "
+        "random meta-models (harness.mm); per invariant and target one comparison of the real transpiler output (parsed) with "
+        "the model's output; non-trivial = expression with more than 3 tokens on the wire; distinct by (target, expression, cfg)")
+    stream_emit(ctx)
+
+
+def oracle(ctx: Ctx) -> None:
+    pass
+
+
+def replay(ctx: Ctx, data: Dict[str, Any]) -> Any:
+    return {}
